@@ -27,12 +27,12 @@ CLAIMS = {
  "C12": ("deterministic simulation: folding option per node × where parameters travel × content-type spelling × body tampering × delivery to a node with the other option",
          "Seeded search in the form world; accept/refuse and canonical query/payload-hash agreement with the reference merge model.",
          "Media-type case variants and known non-UTF-8 charsets are generated but unasserted (outside the statement).", "DESIGN.md §4 C12"),
- "C13": ("deterministic simulation: 1-4 simultaneous defects from different rules and seams on one delivery; reference precedence and status table",
-         "Seeded search over defect subsets on both carriers; the reported error must belong to the earliest failing rule; every error observed is checked against the kind→code/status table.",
-         "Rules are recognised by error kind plus message class (prefix); an unrecognised message is counted, not asserted. Body-encoding refusals are outside the documented order and never combined.", "DESIGN.md §4 C13"),
- "C14": ("deterministic simulation: scripted provider (pending/ready/error/rotation), seeded executor interleaving 1-6 tasks, spurious polls, cancellation; call-protocol monitor over the recorded history",
-         "Seeded search over provider behaviours × schedules × request defects; per-validation history is checked (≤1 call, only after Ready, none for requests refused earlier, errors passed through/wrapped, bounded liveness, no lost wake-up).",
-         "The executor is single-threaded; OS-thread interleavings are C18's matter.", "DESIGN.md §4 C14"),
+ "C13": ("deterministic simulation: 1-4 simultaneous defects from different rules and seams (network, clock, scope, provider, signature) on one delivery, judged against its earliest-defect twin; status table over every error",
+         "Seeded search over defect subsets on both carriers: the request carrying only the earliest-ranked defect must be reported exactly like the request with the later-ranked defects added (kind, status, message class); the reference model certifies which defect is earliest and that the defects do not interact. Every error observed is checked against the kind→code/status table. Thorough appends every single defect and every pair of different rank on six base requests.",
+         "Rules are recognised by error kind plus message class (prefix); an unrecognised message is counted, not asserted. Body-encoding refusals are outside the documented order and never combined. Whether a single defect is caught at all is the owning property's check.", "DESIGN.md §4 C13, §10.2"),
+ "C14": ("deterministic simulation: scripted provider (pending/ready/error/rotation, fails when called unready), body transport faults, seeded executor interleaving 1-6 tasks, spurious polls, cancellation; call-protocol monitor over the recorded history plus an immediate-provider control twin",
+         "Seeded search over provider behaviours × schedules × request defects; per-validation history is checked (≤1 call, only after Ready, none when the library's own refusal belongs to an earlier rule, what the provider answered is what the caller gets, bounded liveness, no lost wake-up) and every outcome is compared with the same request validated alone with an immediate provider. Thorough appends every error kind at readiness/answer with 0 and 2 pending polls, and 1.2 s of real provider latency half a second from the window edge.",
+         "The executor is single-threaded; OS-thread interleavings are C18's matter. Real-clock reads inside the library are only visible to the thorough tier's real-latency sweep.", "DESIGN.md §4 C14, §10.2"),
  "C15": ("deterministic simulation: every accepted delivery compared part by part with what was submitted and with the key store's answer",
          "Seeded search inheriting the general and form worlds; method, version, header multiset and per-name order, body, URI (or merged query when folded), principal and session data are compared.",
          "When folding rebuilt the URI only the query multiset and path equivalence are asserted (authority of absolute-form targets is not preserved; recorded as an observation).", "DESIGN.md §4 C15"),
@@ -48,15 +48,15 @@ CLAIMS = {
  "C10": ("deterministic simulation: harness-owned hash seeds (process incarnations via the getrandom seam), permutation and re-spelling by intermediaries; reference canonical query",
          "Seeded search over pair multisets × spellings × hash seeds; every canonical string must equal the reference; end-to-end acceptance is independent of order and spelling.",
          "std's RandomState obtains its keys through the interposable libc getrandom symbol (verified on this toolchain by the self-test).", "DESIGN.md §4 C10"),
- "C16": ("deterministic simulation: clients rendering a simulated ns clock in every admissible form, network corruption of date text, boundary deliveries that pin the parsed instant to the nanosecond",
+ "C16": ("deterministic simulation: clients rendering a simulated ns clock in every admissible form, network corruption of date text, sequences (good, malformed, malformed again) on one thread; parsed instant and string-to-sign line observed through `unstable`",
          "Seeded search over date texts on both carriers; three-class reference verdict (must accept / must reject / unspecified); thorough appends the fixed field/separator/offset/fraction sweep. Partly generation only (DESIGN §4 C16).",
          "Mixed separators, offsets 15:00-23:59, lower-case t/z and year 0000 are unspecified: only 'if accepted, the instant is the reference instant' is asserted.", "DESIGN.md §4 C16"),
  "C17": ("deterministic simulation: history check over everything a run emitted (capturing log seam, errors, Debug/Display) with a secret-material scanner",
          "Seeded search over tampered/defective/provider-failing/accepted deliveries; every emitted text is scanned for each secret, derived key and withheld correct signature in raw, hex, base64 and decimal-list form.",
          "Secrets shorter than 8 bytes are not searched for; provider error texts come from the harness.", "DESIGN.md §4 C17"),
- "C18": ("deterministic simulation: baton-scheduled real threads at log/provider seams, harness-owned hash seeds, fresh processes with contended first use; outcome equality against a single-thread golden",
-         "Seeded search over schedules × hash seeds × processes for a per-run corpus; the schedule is recorded and replays exactly; message text is not part of the outcome.",
-         "Preemption only at seams in the native engine; the real-parallel first-use phase in the fresh process is not schedule-controlled (its assertion holds for every schedule).", "DESIGN.md §4 C18"),
+ "C18": ("deterministic simulation: baton-scheduled real threads at log/provider seams, all validations in flight on one executor thread, harness-owned hash seeds, fresh processes with contended first use, real-parallel hammer, Miri's seeded scheduler (thorough); outcome equality against a single-thread golden",
+         "Seeded search over schedules × hash seeds × processes for a per-run corpus; the baton schedule is recorded and replays exactly; a violation that depends on earlier runs of the same process is replayed with that history in a fresh process; message text is not part of the outcome.",
+         "Preemption only at seams in the native engine; the real-parallel phases are scheduled by the OS (their assertion holds for every schedule; a failure is re-found by re-running up to 40 times, not replayed step by step); Miri tier runs only when the nightly toolchain is present and is skipped otherwise.", "DESIGN.md §4 C18, §10.2"),
  "C19": ("deterministic simulation: duplication faults on authentication inputs in every order, exactly one selection valid; reference selection rules",
          "Seeded search over duplicated inputs × positions on both carriers; the documented selection table and the reference verdict from bytes must agree before the library is judged; the key store records which identity was selected.",
          "The signer signs the request with the duplicate in place where the duplicate is part of the canonical form.", "DESIGN.md §4 C19"),
